@@ -34,6 +34,11 @@ class Violation(Exception):
         self.sig = dict(sig or {})
 
 
+class RunTimeout(BaseException):
+    """Raised by the per-run watchdog; a BaseException so that no `except Exception` in an oracle or in the
+    library swallows it.  The run is counted as skipped."""
+
+
 class Skip(Exception):
     """The generated case is outside the bounds of the oracle (counted as trivial)."""
 
